@@ -58,6 +58,10 @@ def task_result(prog, sd, td) -> str:
 
 
 def stage_from_tasks(prog, sd) -> str:
+    kids = [k for k in prog["stages"] if k["parent"] == sd["ref"]]
+    for k in kids:   # a synthetic child that halts makes its parent TERMINAL
+        if stage_from_tasks(prog, k) in ("TERMINAL", "STOPPED", "CANCELED"):
+            return "TERMINAL"
     res = [task_result(prog, sd, t) for t in sd["tasks"]]
     for k in ("TERMINAL", "STOPPED"):
         if k in res:
@@ -125,7 +129,21 @@ def ideal(prog) -> dict:
                 st[ref] = "SKIPPED"
             else:
                 st[ref] = stage_from_tasks(prog, sd)
-    vals = set(st.values())
+    # synthetic children: before-children run when the parent starts, after-children when its core finished
+    for sd in prog["stages"]:
+        if not sd["parent"]:
+            continue
+        par = _stage(prog, sd["parent"])
+        pst = st.get(sd["parent"], "NOT_STARTED")
+        if pst in ("NOT_STARTED", "SKIPPED"):
+            st[sd["ref"]] = "ABSENT"
+        elif sd["owner"] == "BEFORE":
+            st[sd["ref"]] = stage_from_tasks(prog, sd)
+        else:
+            core = [stage_from_tasks(prog, k) for k in prog["stages"] if k["parent"] == par["ref"] and k["owner"] == "BEFORE"]
+            core += [task_result(prog, par, t) for t in par["tasks"]]
+            st[sd["ref"]] = stage_from_tasks(prog, sd) if all(c in ("SUCCEEDED", "FAILED_CONTINUE", "SKIPPED") for c in core) else "ABSENT"
+    vals = {v for k, v in st.items() if not _stage(prog, k)["parent"]}
     if "TERMINAL" in vals:
         wf = "TERMINAL"
     elif "CANCELED" in vals:
@@ -153,7 +171,8 @@ def racy(prog) -> set[str]:
                 continue
             out.add(r)
             out |= descendants(prog, r)
-    # descendants of a halting stage never run: their ideal is NOT_STARTED and is exact unless racy
+    # synthetic children of a racy stage are racy too
+    out |= {s["ref"] for s in prog["stages"] if s["parent"] in out}
     return out
 
 
@@ -178,8 +197,10 @@ def exec_max(prog, ref_ledger: list[dict]) -> dict[str, int]:
 def reference(prog, fifo_final: dict) -> dict:
     """Oracle record emitted into Program.tla (Ref, Ideal, Racy, ExecMax)."""
     st = fifo_final["state"]["st"]
+    refst = {s["ref"]: "ABSENT" for s in prog["stages"]}
+    refst.update({k: v["status"] for k, v in st.items()})
     return {
-        "Ref": {"wf": fifo_final["state"]["wf"]["status"], "st": {k: v["status"] for k, v in st.items()}},
+        "Ref": {"wf": fifo_final["state"]["wf"]["status"], "st": refst},
         "Ideal": ideal(prog),
         "Racy": set(racy(prog)),
         "ExecMax": exec_max(prog, fifo_final["ledger"]),
